@@ -111,6 +111,9 @@ type c08Case struct {
 	OPL        string      `json:"opl,omitempty"`
 	Global     int         `json:"global_max_depth"`
 	BatchLimit int         `json:"max_batch_check_size"`
+	// Parallel: limit.batch_check_max_parallelization (0 = not set, default 5); a
+	// function of the index, not of the generator's random stream
+	Parallel int `json:"batch_check_max_parallelization"`
 	Tuples     []string    `json:"tuples"`
 	Probes     []*c08Probe `json:"probes"`
 	Batches    []*c08Batch `json:"batches"`
@@ -173,6 +176,7 @@ func genC08Case(r *rand.Rand, idx int64) *c08Case {
 	if r.IntN(4) == 0 {
 		c.BatchLimit = 5
 	}
+	c.Parallel = []int{0, 1, 0, 2, 1, 0, 16, 3}[(idx/3)%8]
 	c.tuples = append(c.tuples, cc.tuples...)
 
 	add := func(t *Tup, flavor string) int {
@@ -747,6 +751,10 @@ func TestC08(t *testing.T) {
 
 func runC08Case(run *runner, idx int64, c *c08Case, seen map[string]int) string {
 	opts := EnvOpts{MaxDepth: c.Global, Extra: map[string]any{"limit.max_batch_check_size": c.BatchLimit}}
+	if c.Parallel > 0 {
+		opts.Extra["limit.batch_check_max_parallelization"] = c.Parallel
+	}
+	run.count(fmt.Sprintf("cases_batch_parallelization_%d", c.Parallel), 1)
 	if c.Load != "ast" {
 		text := (&renderStyle{FullParens: true}).render(c.Cfg)
 		if _, errs := parseOPL(text); len(errs) > 0 {
